@@ -623,7 +623,7 @@ def run(ctx):
         'random() values k/8; doubling up to 2^40): observed timeouts are compared as exact rationals',
         'threading.Event.wait / asyncio.wait_for treat a timeout <= 0 as "do not wait"'])
     # the constructor defaults and engine.io's reason strings are the ones of the source as it is now
-    C.audit_extra(ctx, 'Glue', ['reconnect_defaults', 'default_waits_bounded', 'reason_strings'])
+    C.audit_extra(ctx, 'GlueReconnect', ['reconnect_defaults', 'default_waits_bounded', 'reason_strings'])
     if ctx.thorough:
         ok, out = C.leanchecker(['Sio.Props.C10'])
         ctx.coverage['leanchecker'] = 'ok' if ok else out
